@@ -236,7 +236,8 @@ def generator_hook(eng, func, fr):
     list iterators do).  Refused (Unsupported): state carried between iterations in local variables, attribute assignment,
     break / return inside the loop, an iteration that yields no item or several.
     Assumes: the loop's iterable expression is evaluated when the generator is created (CPython evaluates it at the first
-    next()); its evaluation must log no call, so the two moments differ only if a name it reads is rebound in between."""
+    next()); its evaluation may call only functions whose contracts modify nothing, so the two moments differ only in the VALUE
+    of the expression, i.e. if something it reads (a length, a name) changes between creation and the first item."""
     from .engine import BreakSig, ContinueSig, ReturnSig
 
     body = _docstring_free(func.node.body)
@@ -266,8 +267,10 @@ def generator_hook(eng, func, fr):
         except ReturnSig:
             pass
         return Iter(out)
-    if len(eng.call_log) != mark:
-        raise Unsupported("lazily run generator: evaluating the loop's iterable calls a function under contract")
+    called = {nm for nm, _ in eng.call_log[mark:]}
+    if any(c.short in called and c.modifies for c in eng.registry.values()):
+        # (a call of a function that modifies nothing -- len(self) -- only makes the VALUE depend on the moment of evaluation)
+        raise Unsupported("lazily run generator: evaluating the loop's iterable calls a function that modifies state")
     from .loops import _walk_no_defs
 
     if any(isinstance(x, (ast.Break, ast.Return, ast.YieldFrom)) for x in _walk_no_defs(loop.body)):
@@ -275,13 +278,13 @@ def generator_hook(eng, func, fr):
     carried = _carried_names(loop)
     if carried:
         raise Unsupported(f"lazily run generator: the loop carries state between iterations in {sorted(carried)}")
-    eng.seq_effects = []
+    outer_eff, eng.seq_effects = getattr(eng, "seq_effects", None), []
     try:
         n, getter = models.as_sequence(eng, seqv)
     finally:
-        inner_eff, eng.seq_effects = eng.seq_effects, None
+        inner_eff, eng.seq_effects = eng.seq_effects, outer_eff  # (a consumer that is collecting effects right now keeps its list)
     used(eng, "rule: a generator function `for x in S: yield e(x)` over a symbolic-length S is the lazy sequence whose item k runs the real loop "
-              "body for position k when it is requested (the iterable expression is evaluated at creation; list sources are read through)")
+              "body for position k when it is requested (the iterable expression, which may call only functions that modify nothing, is evaluated at creation; list sources are read through)")
 
     def step(e, k):
         sub = Frame(parent=fr, globs=fr.globs, func=fr.func)
